@@ -122,6 +122,10 @@ class Probe(Stream):
             extra = {"text": x, "raw": list(x.encode("utf-8"))}
         log.add("deliver", probe=self.pid, d=d, x=flat(x), md=enc_md(metadata),
                 shape="batch" if isinstance(x, (tuple, list)) else "one", **extra)
+        if isinstance(x, list):
+            # a value that has been handed over belongs to the consumer: remember it to see whether it is changed later
+            log.kept = getattr(log, "kept", [])
+            log.kept.append((d, x, list(x)))
         if self.mode == "sync":
             log.add("cons_done", d=d, probe=self.pid)
             return []
@@ -132,6 +136,14 @@ class Probe(Stream):
         async def consume():
             await fut
         return consume()
+
+
+def check_kept(log):
+    """log a `mutated` event for every delivered list that no longer has the content it was delivered with"""
+    for d, obj, snap in getattr(log, "kept", []):
+        if list(obj) != snap and d not in getattr(log, "mutated", set()):
+            log.mutated = getattr(log, "mutated", set()) | {d}
+            log.add("mutated", d=d, was=flat(snap), now=flat(list(obj)))
 
 
 def finish_delivery(log, d):
